@@ -925,6 +925,7 @@ fn gen_file_program(rng: &mut Rng, exists: &mut BTreeSet<String>) -> Scenario {
     let nops = 3 + rng.below(20);
     let mut random_open: Option<i32> = None;
     let second_view = rng.chance(1, 2);
+    let refield = rng.chance(1, 2);
     let random_len: i32 = *rng.pick(&[8, 8, 10, 12, 16, 20]);
     let mut put_records: BTreeSet<i32> = BTreeSet::new();
     for _ in 0..nops {
@@ -1195,6 +1196,13 @@ fn gen_file_program(rng: &mut Rng, exists: &mut BTreeSet<String>) -> Scenario {
                         main.push(ids.st(StmtKind::Field {
                             handle: 3,
                             fields: vec![(2, "FC$".into()), (5, "FD$".into())],
+                        }));
+                    } else if refield {
+                        // the same variables fielded again with other widths: from now on
+                        // LSET and PUT go by the new layout
+                        main.push(ids.st(StmtKind::Field {
+                            handle: 3,
+                            fields: vec![(2, "FA$".into()), (6, "FB$".into())],
                         }));
                     }
                     abs.open.insert(3, (Mode::Random, "R.DAT".into()));
